@@ -16,6 +16,8 @@
 (*   text  cur := the field value read from a date / integer text          *)
 (*   instant  cur := the serial made from an instant (a clock value, also  *)
 (*         before the epoch) by From<jiff::Timestamp> for Serial           *)
+(*   fresh    cur as a cookie timestamp presented to the server cookies    *)
+(*         middleware whose clock shows `now`                               *)
 (*   window   cur as a timestamp presented to a verifier with the validity *)
 (*         window [lo, hi): Range::contains, new::edns::Cookie::verify     *)
 EXTENDS SerialLimbs, Sequences, TLC, Json, IOUtils
@@ -41,6 +43,8 @@ T_Cmp == /\ IsEv("cmp")
             /\ Rec[l].rev = LFlip(r)        \* antisymmetry (law 2), observed
             /\ Rec[l].timestamp = r         \* rdata::dnssec::Timestamp
             /\ Rec[l].newserial = r         \* new::base::Serial
+            /\ Rec[l].newts = r             \* new::rdata::Rrsig::expiration() Timestamp
+            /\ Rec[l].newtsrev = LFlip(r)   \* ... and its reversed call
             /\ Rec[l].ref = r               \* harness reference ref_cmp(32, ..)
             \* XFR middleware, RFC 1995 section 2: IXFR request of a client at
             \* serial cur, zone at serial b, diffs available
@@ -80,6 +84,10 @@ T_Place == /\ IsEv("place")
            /\ Rec[l].t.v = cur
            /\ LPlaceConstrained(Rec[l].era, Rec[l].r, cur)
                  => Rec[l].t.era = LPlaceEra(Rec[l].era, Rec[l].r, cur)
+           \* the copy of to_system_time on the new API's signature time
+           /\ Rec[l].nt.v = cur
+           /\ LPlaceConstrained(Rec[l].era, Rec[l].r, cur)
+                 => Rec[l].nt.era = LPlaceEra(Rec[l].era, Rec[l].r, cur)
            /\ UNCHANGED cur
 
 \* text entry points (FromStr, Timestamp::scan, zone-file reader; date form
@@ -103,12 +111,25 @@ T_Instant == /\ IsEv("instant")
 T_Window == /\ IsEv("window")
             /\ IsLVal(Rec[l].lo) /\ IsLVal(Rec[l].hi)
             /\ LET d == LWindowDecision(Rec[l].lo, Rec[l].hi, cur) IN
-               \A site \in {"cookie", "newrange", "range", "tsrange"} :
+               \A site \in {"cookie", "newrange", "range", "tsrange", "newtsrange"} :
                   /\ Rec[l][site] \in {"accept", "reject"}
                   /\ d # "any" => Rec[l][site] = d
             /\ UNCHANGED cur
 
-TNext == T_Text \/ T_Set \/ T_Cmp \/ T_Add \/ T_ZoneBump \/ T_Place \/ T_Instant
+\* the server cookies middleware, its clock at `now`, is shown a correctly
+\* hashed cookie made at cur (CookiesMiddlewareSvc::timestamp_ok through a
+\* prefetch request and through a query from a deny-listed address; the old
+\* API's opt::Cookie::check_server_hash): Serial!FreshDecision with the
+\* one hour / five minutes of RFC 9018 section 4.3
+T_Fresh == /\ IsEv("fresh")
+           /\ IsLVal(Rec[l].now)
+           /\ LET d == LFreshDecision(Rec[l].now, cur, <<0, 3600>>, <<0, 300>>) IN
+              \A site \in {"mwprefetch", "mwdenied", "optcookie"} :
+                 /\ Rec[l][site] \in {"accept", "reject"}
+                 /\ d # "any" => Rec[l][site] = d
+           /\ UNCHANGED cur
+
+TNext == T_Fresh \/ T_Text \/ T_Set \/ T_Cmp \/ T_Add \/ T_ZoneBump \/ T_Place \/ T_Instant
          \/ T_Window
 TSpec == TInit /\ [][TNext]_tvars
 
